@@ -195,6 +195,13 @@ def r_unescape_machine(r, prog):
     esc = r'phi\(0\|Not\(arg1\.0\)\)'
     if re.match(r'^Not\(' + esc + r'\)$', ret) and any(re.match('^' + esc + '$', x) for x in stores):
         gs = [g for b in range(len(f.blocks)) for g in guards.guard_set(prog, f, b) if re.search(r'92', g)]
+        # the machine runs over the whole literal, from its first character, starting in the not-escaped state, and nothing else is returned
+        outer = prog.fn('slicec::parsers::slice::grammar::unescape_string_literal')
+        oret = vexpr(outer, {'cp': {'l': 0}}, depth=10)
+        if gs and oret != 'collect(filter(chars(arg1),closure(0)))':
+            r.finding('unescape-not-whole-literal', outer.span, 'unescape_string_literal returns %s: the escape machine must see every character of the literal, from the first, starting not-escaped (expected collect(filter(chars(arg1),closure(false))))' % oret[:200])
+            r.floor(1)
+            return
         if gs:
             r.ok('a character is dropped iff it is a backslash and the previous one was not an unescaped backslash; the flag is updated with the same value')
             r.floor(1)
